@@ -214,7 +214,12 @@ OPS = {
     "trans-second-multi-range": [M("pair", lambda s: setv(s, "Pair", "Fe-Al", "trans(as.lj 0.2 2.5, as.constant 1 >2 as.constant 3)"))],
     "spline-endpoint-unevaluable": [M("pair", lambda s: setv(s, "Pair", "Cu-Cu", "spline(>-1 as.zbl 29 29 >=0 exp_spline >=1.4 as.buck 1000.0 0.3 32.0)")),
                                     M("pair", lambda s: setv(s, "Pair", "Fe-Cu", "as.buck4 1000 0 32 1 1.5 2")),
-                                    M("pair", lambda s: setv(s, "Pair", "Cu-Cu", "spline(>-3 as.sqrt 1 >=-2 exp_spline >=1.4 as.zero)"))],
+                                    M("pair", lambda s: setv(s, "Pair", "Cu-Cu", "spline(>-3 as.sqrt 1 >=-2 exp_spline >=1.4 as.zero)")),
+                                    # the same in the sections of an EAM model (embedding, density, Finnis-Sinclair density, the pair section of an EAM target)
+                                    M("eam", lambda s: setv(s, "EAM-Embed", "Al", "spline(as.buck 1 0 1 >=1 exp_spline >=2 as.zero)")),
+                                    M("eam", lambda s: setv(s, "EAM-Density", "Cu", "spline(>-1 as.zbl 29 29 >=0 exp_spline >=1.4 as.buck 1000.0 0.3 32.0)")),
+                                    M("fs", lambda s: setv(s, "EAM-Embed", "Al", "as.buck4 1000 0 32 1 1.5 2")),
+                                    M("eam", lambda s: setv(s, "Pair", "Al-Al", "spline(>-3 as.sqrt 1 >=-2 exp_spline >=1.4 as.zero)"))],
     "species-not-finite": [M("eam", lambda s: setv(s, "Species", "Cu.atomic_mass", "nan")), M("eam", lambda s: setv(s, "Species", "Al.lattice_constant", "inf")), M("fs", lambda s: setv(s, "Species", "Cu.atomic_mass", "-inf"))],
     "species-key-empty-part": [M("eam", lambda s: rename(s, "Species", "Cu.atomic_mass", ".atomic_mass")), M("eam", lambda s: rename(s, "Species", "Al.lattice_constant", "Al."))],
     "formula-library-call-wrong-arity": [M("pair", lambda s: setv(s, "Potential-Form", "f(r,a)", "pymath.log(r, 2, 3) + a")), M("eam", lambda s: setv(s, "Potential-Form", "f(r,a)", "pymath.hypot(r) + a"))],
